@@ -225,6 +225,20 @@ def run(fx, tier):
                     if n.get('k') in ('ref', 'mem') and str(n.get('n', '')).endswith('_flag')}
             v.check(used == {want}, 'R-OWN', 'session_state::%s(%s) [%s]' % (f.n, 'bool' if f.params else '', f.tu),
                     'accessor uses its own flag (%s)' % sorted(used), key='C13:R-OWN:session_state::%s' % f.n, where=f.file)
+    # "since the client started": a restarted client (dup() of the service) starts with fresh session flags - the
+    # hand-written mqtt_ctx copy constructor must not carry `state` over (shared shape with C10)
+    n_cc = 0
+    for f in fx.fns:
+        if f.d.get('ctor') and f.cls == 'mqtt_ctx' and len(f.params) == 1 and f.params[0].get('tcls') == 'mqtt_ctx':
+            n_cc += 1
+            inits = {i_.get('field'): i_.get('init') for i_ in f.d.get('inits', [])}
+            ini = inits.get('state')
+            fresh = ini is None or not contains(ini, lambda n: n.get('k') == 'ref' and n.get('dk') == 'param')
+            v.check(fresh, 'R-OWN', 'mqtt_ctx copy constructor:state [%s]' % f.tu,
+                    'the session flags (session present / a subscription has succeeded) are not copied into a restarted client',
+                    key='C13:R-OWN:mqtt_ctx-copy:state', where=f.file)
+    if n_cc == 0:
+        raise AnalysisBroken('mqtt_ctx copy constructor not found')
     v.expect_min('R-PAIR', 15, 'update_session_state paths × TUs')
     v.expect_min('R-DOM', 8, 'notifications × TUs')
     v.expect_min('R-OWN', 30, 'flag writers')
